@@ -16,6 +16,19 @@ class BuildError(Exception):
     pass
 
 
+# process groups of running cargo-kani invocations (killed when the check is terminated)
+CHILD_GROUPS = set()
+
+
+def kill_children():
+    import signal
+    for pg in list(CHILD_GROUPS):
+        try:
+            os.killpg(pg, signal.SIGKILL)
+        except Exception:
+            pass
+
+
 def _descendants(pid):
     """pids of all descendants of pid (via /proc)."""
     kids = {}
@@ -153,7 +166,8 @@ def run_group(stage_dir, harnesses, jobs=16, timeout_s=300, stub=False, cbmc_arg
     env.update(KANI_ENV)
     t0 = time.time()
     proc = subprocess.Popen(cmd, cwd=stage_dir, env=env, stdout=subprocess.PIPE,
-                            stderr=subprocess.STDOUT, text=True)
+                            stderr=subprocess.STDOUT, text=True, start_new_session=True)
+    CHILD_GROUPS.add(proc.pid)
     wd = _Watchdog(proc.pid, mem_cap_gb)
     wd.start()
     # overall guard: timeouts are per harness; harnesses run ceil(n/jobs) deep
@@ -172,6 +186,7 @@ def run_group(stage_dir, harnesses, jobs=16, timeout_s=300, stub=False, cbmc_arg
         out, _ = proc.communicate()
         out += "\n[verif] overall timeout %ds expired\n" % overall
     wd.stop = True
+    CHILD_GROUPS.discard(proc.pid)
     wall = time.time() - t0
     if log_path:
         with open(log_path, "a") as fh:
